@@ -159,10 +159,11 @@ def generate(unit, repo):
             for a, b in substs:
                 if a.startswith("re:"):
                     rx = re.compile(a[3:], re.S)
-                    found = rx.findall(body)
+                    found = rx.findall(body) + rx.findall(sig)
                     if not found:
                         raise ValueError("lost anchor: subst_re %r in %s" % (a[3:], spec))
                     body = rx.sub(lambda _m: b, body)
+                    sig = rx.sub(lambda _m: b, sig)
                     info["substs"].append({"fn": spec, "old_regex": a[3:], "new": b, "count": len(found)})
                     continue
                 n = sig.count(a) + body.count(a)
